@@ -1,8 +1,8 @@
-import Ptn.C14.Final
+import Ptn.C14.Termination
 /-! Helper lemmas for C14 (core Lean only).  The bulk lives in
 `Spec` (vocabulary), `Duality` (weak duality), `GraphLemmas` (construction), `Explore`
-(alternating-path exploration), `Koenig` (cover loop), `Matching` (Hopcroft-Karp invariants),
-`Bfs` (layering). -/
+(alternating-path exploration), `Koenig` (cover loop), `Matching` (Hopcroft-Karp matching invariant), `Bfs` (layering, closure),
+`Final` (exit state of the outer loop), `Dfs` (fuel, completeness of the DFS), `Termination`. -/
 namespace Ptn.C14
 
 theorem mem_edges (g : Graph) (u v : Nat) : (u, v) ∈ g.edges ↔ u < g.nU ∧ v ∈ g.nbrU u := by
